@@ -357,6 +357,11 @@ pub fn exec_build_case(rest: &str) -> String {
                         x = e;
                     }
                 }
+                if x == "ok" && (rows, cols) == (drows(), dcols()) && out.results.iter().all(|r| r == "ok") && ops.iter().map(|o| o.key().len() + 1).sum::<usize>() <= 4096 {
+                    if let Err(e) = crate::wrap::sink_routes(ty, &ops, bytes) {
+                        x = e;
+                    }
+                }
                 format!("r={};c={};len={}", out.results.join(","), fmt_kvs(&kvs), f.len())
             }
             Err(e) => format!("r={};openfail:{}", out.results.join(","), e),
